@@ -7,6 +7,10 @@ from props.c03 import next_contract, fit
 
 H = "han.hdlc."; FQ = "han.fastframecheck.FastFrameCheckSequence16."
 I = z3.IntSort()
+# ghost: the array that represents the octets of a frame created while the reader is at stream position p.  Only the first len(frame) entries of a
+# frame's array mean anything, so which array stands for an empty frame is a free choice of representation; naming it as a function of the position lets a
+# lemma pick it (clean-stream lemma: the array of the frame that is about to arrive).  Uninterpreted everywhere else.
+NEWARR = z3.Function("new_frame_array", I, BYTE_ARR)
 
 def mk_engine(repo):
     eng = Engine({"han.fastframecheck": f"{repo}/han/fastframecheck.py", "han.common": f"{repo}/han/common.py", "han.hdlc": f"{repo}/han/hdlc.py"})
@@ -297,7 +301,8 @@ def install_reader_contracts(eng):
         return [(st, None)]
     eng.contracts[H + "HdlcFrame.append"] = Contract(apply=apply_append)
     def apply_frame_init(e, st, args, ctx, node):
-        fr = args[0]; arr = fresh("fdata", BYTE_ARR)
+        fr = args[0]; readers = [Ref(oid) for oid, (c, f) in st.heap.items() if c == R[:-1]]
+        arr = NEWARR(reader_view(st, readers[0])["gp"]) if len(readers) == 1 else fresh("fdata", BYTE_ARR)
         ffc = st.new_obj(FQ[:-1], {"_crc_value": SBV(z3.BitVecVal(0xFFFF, 16))})
         hd = st.new_obj(H + "HdlcFrameHeader", {"_frame": fr, "_control_position": None, "_is_header_good": None})
         st.heap[fr.oid][1].update({"_frame_data": SBytes(arr, 0), "_ffc": ffc, "_escape_next": False, "_header": hd})
@@ -352,6 +357,8 @@ def reader_obligations(eng, configs=CONFIGS, methods=("_read_next", "read"), gho
         if not in_frame:
             goals.append(("T1 hunt mode, not a flag: stays in hunt mode, nothing completes", z3.Implies(z3.Not(flag), z3.And(hunt1, z3.BoolVal(not is_true)))))
             goals.append(("T2 hunt mode, flag: a new empty frame starts", z3.Implies(flag, z3.And(frame_is(0, 0), z3.BoolVal(not is_true)))))
+            if fr1 is not None:
+                goals.append(("T13 the new frame is represented by the array named after the read position", z3.And(st1.getf(fr1, "_frame_data").arr == NEWARR(v["gp"]), z3.Not(v["esc"]))))
             return goals
         n, rn, cp, arr, raw = old["n"], old["rn"], old["cp"], old["arr"], old["raw"]
         hcs = z3.And(cp != -1, n > cp + 2)
@@ -374,6 +381,18 @@ def reader_obligations(eng, configs=CONFIGS, methods=("_read_next", "read"), gho
         if fr1 is not None and not is_true:
             # in a frame afterwards and not restarted: the raw octets grew by exactly c (content is then fixed by the invariant octets == unstuff(raw))
             goals.append(("T10 raw octets grow by the consumed octet", z3.Implies(v["raw"].n == rn + 1, v["raw"].at(rn) == c)))
+        if fr1 is not None:
+            # T11-T13: the same transitions on the representation (frame array, pending escape) - what the clean-stream lemma composes
+            d1 = st1.getf(fr1, "_frame_data"); esc1 = v["esc"]
+            if is_true: goals.append(("T11 a completed frame keeps its octets", d1.arr == arr))
+            else:
+                goals.append(("T11 flag on an empty frame: same frame object, nothing pending", z3.Implies(z3.And(flag, n == 0), z3.And(d1.arr == arr, z3.Not(esc1)))))
+                if stuffing:
+                    octet = z3.If(old["esc"], c ^ 0x20, c); grows = z3.Not(z3.And(z3.Not(old["esc"]), c == 0x7D))
+                    goals.append(("T12 octet stuffing: the frame array grows by the un-stuffed octet, an escape octet only sets the pending flag",
+                                  z3.Implies(z3.And(z3.Not(flag), d1.n == z3.If(grows, n + 1, n)), z3.And(d1.arr == z3.If(grows, z3.Store(arr, n, octet), arr), esc1 == z3.Not(grows)))))
+                else:
+                    goals.append(("T12 no stuffing: the frame array grows by the octet", z3.Implies(z3.And(v["raw"].n == rn + 1, d1.n == n + 1), d1.arr == z3.Store(arr, n, c))))
         return goals
     if "_read_next" in methods:
         for cfg in configs:
